@@ -242,15 +242,18 @@ PROPS['C08'].update({
 
 PROPS['C04'].update({
     'level': 'other',
-    'units': ['pwl_compose', 'pwl_reduce', 'pwl_tree', 'pwl_schemas'],
+    'units': ['pwl_compose', 'pwl_compose_pruned', 'pwl_reduce', 'pwl_tree', 'pwl_schemas'],
     'technique': 'Verus contracts: every un-pruned transformation under contract (compose::<false,false> / generic_composition_inplace, reduce, apply_func, add_child_node, update_node, from_aff) preserves Tree::wf and the shape invariant aff_shape_ok as part of its postcondition, and its panics are proved unreachable; bounded replay of operation histories (bc histories) for the LP-dependent transformations and the history quantifier',
     'level_text': ('Mixed. PROVED (Verus, all trees, all arguments satisfying the stated dimension preconditions): the schema constructors (six activations, argmax, class_characterization: well-formed, one common terminal output dimension), compose::<false,false>, reduce, apply_func / apply_func_at_node, AffTree::add_child_node, update_node and from_aff '
                    'each return a tree with Tree::wf (links mirrored, leaf flag <=> no children, single root, acyclic) and aff_shape_ok (every node function has the tree input dimension, every decision has 1..15 rows with 2^rows <= K), '
                    'and none of their unwrap / assert / index panics is reachable; since each postcondition re-establishes the precondition of the next operation, any history over these operations stays well-formed. '
-                   'NOT under contract (depend on the LP solver or on pruning with index reuse): infeasible_elimination, compose::<true,_>, the arithmetic operators, the common output dimension of terminals. '
+                   'Also PROVED (unit pwl_compose_pruned): compose::<true,false> / generic_composition_inplace with the pruning schema keeps Tree::wf, aff_shape_ok and one common terminal output dimension and cannot panic FOR EVERY ANSWER PATTERN of the LP-based feasibility oracle '
+                   '(is_edge_feasible is left arbitrary except for its root shortcut; ghost map new node -> copied lhs node, the create / skip / keep-last / forward bookkeeping of the children loop is part of the invariant; a pruned child is shown to leave the arena exactly as it was). '
+                   'NOT under contract: infeasible_elimination (LP + iterator that mutates the tree underneath), the arithmetic operators. '
                    'BOUNDED (bc histories): random operation histories over all transformations from every constructor, well-formedness (incl. common output dimension) and panic freedom after every step.'),
     'design_ref': 'DESIGN.md §4 C04',
-    'assumptions': ASSUME_COMMON + ASSUME_SLAB + ASSUME_ND + ASSUME_PWL + ASSUME_BC + ['see C02 (unit pwl_compose) and C08 (unit pwl_reduce) for the rewrite rules and trusted helpers of those units'],
+    'assumptions': ASSUME_COMMON + ASSUME_SLAB + ASSUME_ND + ASSUME_PWL + ASSUME_BC + ['see C02 (unit pwl_compose) and C08 (unit pwl_reduce) for the rewrite rules and trusted helpers of those units',
+        'unit pwl_compose_pruned: AffTree::is_edge_feasible is an ASSUMED contract (LP based): `parent_idx == 0 ==> true`, any answer otherwise; the receiver has its root at arena index 0 (true for every tree built by the library constructors); Tree::remove_child is used with the contract proved in unit tree_graph MINUS its arena-size precondition (i32 deletion counter): assumed fewer than 2^31 nodes; rule G1 as for C02 with C = FunctionCompositionInfeasible'],
 })
 
 PROPS['C01'].update({
